@@ -25,24 +25,51 @@ def _ret_dict_call(fn, what):
     die(f"{what}: `return dict(...)` not found")
 
 
-def _if_chain(fn, what, test_side, ret_side):
-    """[(name compared with, name returned)] of the `if x == A.B: return C.D` statements of fn, in order"""
-    out = []
-    for st in fn.body:
-        if isinstance(st, ast.If):
-            t = st.test
-            if not (isinstance(t, ast.Compare) and len(t.ops) == 1 and isinstance(t.ops[0], ast.Eq) and len(st.body) == 1
-                    and isinstance(st.body[0], ast.Return) and not st.orelse):
-                die(f"{what}: unexpected if-statement shape")
-            out.append((attr_tail(t.comparators[0]), attr_tail(st.body[0].value)))
-            for side, node in ((test_side, t.comparators[0]), (ret_side, st.body[0].value)):
-                if side not in ast.unparse(node):
-                    die(f"{what}: expected {side} in {ast.unparse(node)}")
-    if not out:
-        die(f"{what}: no if-chain found")
-    if len(set(k for k, _ in out)) != len(out):
-        die(f"{what}: duplicate tests")
-    return out
+def _tail_under(owner):
+    """node -> last name of a dotted path that passes through `owner` (PortDir.X, vckt.Port.Direction.X), else None"""
+    return lambda n: dotted(n)[-1] if owner in dotted(n)[:-1] else None
+
+
+def _enum_map(what, behav, tree, kowner, vowner):
+    """a table between two enumerations: the behaviour over the whole key enumeration, reconciled with the if-chains and the
+    literal tables of the source that mention the two enumerations (order; must agree)"""
+    kf, vf = _tail_under(kowner), _tail_under(vowner)
+    return reconcile(what, behav, if_chain_tables(tree, kf, vf) + literal_tables(tree, kf, vf))
+
+
+_READERS = {"get", "items", "keys", "values", "index", "count", "copy"}
+_PURE = {"len", "sorted", "list", "tuple", "dict", "set", "frozenset", "iter", "enumerate", "reversed", "min", "max", "any", "all"}
+
+
+def _read_only(tree, name, defn):
+    """every occurrence of the module-level `name` outside its defining statement only LOOKS UP in it: name[k] (loaded),
+    name.get(...) / .items() / ..., `k in name`, `for .. in name`, len(name) and the like.  Anything else (a store, a
+    mutating method, an alias, passing it on) -> False."""
+    parent = {}
+    for n in ast.walk(tree):
+        for c in ast.iter_child_nodes(n):
+            parent[c] = n
+    inside = set(id(n) for n in ast.walk(defn))
+    for n in ast.walk(tree):
+        if isinstance(n, (ast.Global, ast.Nonlocal)) and name in n.names:
+            return False
+        if not (isinstance(n, ast.Name) and n.id == name) or id(n) in inside:
+            continue
+        if not isinstance(n.ctx, ast.Load):
+            return False
+        p = parent.get(n)
+        if isinstance(p, ast.Subscript) and p.value is n and isinstance(p.ctx, ast.Load):
+            continue
+        if isinstance(p, ast.Attribute) and p.attr in _READERS and isinstance(parent.get(p), ast.Call) and parent[p].func is p:
+            continue
+        if isinstance(p, ast.Compare) and n in p.comparators and all(isinstance(o, (ast.In, ast.NotIn)) for o in p.ops):
+            continue
+        if isinstance(p, (ast.For, ast.comprehension)) and p.iter is n:
+            continue
+        if isinstance(p, ast.Call) and isinstance(p.func, ast.Name) and p.func.id in _PURE and n in p.args:
+            continue
+        return False
+    return True
 
 
 def _run():
@@ -56,93 +83,193 @@ def _run():
     ex = src("hdl21/proto/exporting.py")
     im = src("hdl21/proto/importing.py")
 
-    # ---- pulse renaming, export: dict(v1=params.v1, td=params.delay, ...) guarded by isinstance(params, <cls>)
-    f = find_func(ex, "export_primitive_params")
-    call = _ret_dict_call(f, "export_primitive_params")
-    pulse_exp = []
-    for kw in call.keywords:
-        if not (isinstance(kw.value, ast.Attribute) and isinstance(kw.value.value, ast.Name) and kw.value.value.id == "params"):
-            die("export_primitive_params: dict value is not params.<field>")
-        pulse_exp.append((kw.arg, kw.value.attr))
-    cls = None
-    for n in ast.walk(f):
-        if isinstance(n, ast.Call) and getattr(n.func, "id", None) == "isinstance" and isinstance(n.args[1], ast.Name):
-            cls = n.args[1].id
-    if cls is None:
-        die("export_primitive_params: isinstance guard not found")
-    # ---- import: dict(v1=params["v1"], delay=params["td"], ...) or params.get("td", None), guarded by `target is Vpulse`
-    f = find_func(im, "import_primitive_params")
-    call = _ret_dict_call(f, "import_primitive_params")
-    pulse_imp, total = [], []
-    for kw in call.keywords:
-        v = kw.value
-        if isinstance(v, ast.Subscript) and isinstance(v.value, ast.Name) and v.value.id == "params" and isinstance(v.slice, ast.Constant):
-            pulse_imp.append((kw.arg, v.slice.value)); total.append(False)
-        elif isinstance(v, ast.Call) and isinstance(v.func, ast.Attribute) and v.func.attr == "get" and getattr(v.func.value, "id", None) == "params" \
-                and len(v.args) in (1, 2) and isinstance(v.args[0], ast.Constant) and (len(v.args) == 1 or (isinstance(v.args[1], ast.Constant) and v.args[1].value is None)):
-            pulse_imp.append((kw.arg, v.args[0].value)); total.append(True)
-        else:
-            die(f"import_primitive_params: unexpected value {ast.unparse(v)}")
-    guard = None
-    for n in ast.walk(f):
-        if isinstance(n, ast.Compare) and isinstance(n.ops[0], ast.Is) and isinstance(n.comparators[0], ast.Name):
-            guard = n.comparators[0].id
-    if guard is None:
-        die("import_primitive_params: `target is <prim>` guard not found")
-    pulse_prim = getattr(IM, guard)
-    if not isinstance(pulse_prim, hp.Primitive) or pulse_prim.Params is not getattr(EX, cls):
-        die("pulse renaming: the exporter's parameter class is not the parameter class of the importer's primitive")
-    # live cross-check of the export dict
-    pf = [fl.name for fl in dc_fields(pulse_prim.Params)]
-    probe = pulse_prim.Params(**{n: k + 1 for k, n in enumerate(pf)})
-    live = [(k, pf[int(v.number) - 1]) for k, v in EX.export_primitive_params(probe).items()]
-    if live != pulse_exp:
-        die(f"pulse renaming: ast {pulse_exp} vs live {live}")
+    # ---- pulse renaming, export: behaviour of export_primitive_params on a probe of every IDEAL parameter class
+    #      (translate_tables.py: export_renaming_reading); the source form dict(v1=params.v1, td=params.delay, ...) must agree
+    #      when it is there
+    pulse_params, pulse_exp = export_renaming_reading()
 
-    # ---- port directions
-    dir_exp = _if_chain(find_func(ex, "export_port_dir"), "export_port_dir", "PortDir.", "Direction.")
-    dir_imp = _if_chain(find_func(im, "import_port_dir"), "import_port_dir", "Direction.", "PortDir.")
+    def _exp_source():
+        call = _ret_dict_call(find_func(ex, "export_primitive_params"), "export_primitive_params")
+        out = []
+        for kw in call.keywords:
+            if not (isinstance(kw.value, ast.Attribute) and isinstance(kw.value.value, ast.Name)):
+                die("shape")
+            out.append((kw.arg, kw.value.attr))
+        return out
+    sf = soft(_exp_source)
+    if sf is not None and sf != pulse_exp:
+        die(f"pulse renaming: ast {sf} vs live {pulse_exp}")
+
+    # ---- import: behaviour of import_primitive_params on every IDEAL primitive: a probe holding a distinct marker under every
+    #      VLSIR name the exporter writes and under every field name; the answer either is the probe (general case) or is
+    #      decoded through the markers: (field set, VLSIR name read).  Exactly one primitive is special-cased, and its parameter
+    #      class is the one the exporter renames.  `total`: un-set names are read as None (an empty probe is accepted).
+    fn = getattr(IM, "import_primitive_params", None)
+    if not callable(fn):
+        die("importing.py has no import_primitive_params to probe")
+    special = {}
+    for prim in registered_primitives():
+        if prim.primtype.name != "IDEAL":
+            continue
+        keys = list(dict.fromkeys([k for k, _ in pulse_exp] + [fl.name for fl in dc_fields(prim.Params)]))
+        marks = {k: ("trx-marker", i) for i, k in enumerate(keys)}
+        got = fn(prim, dict(marks))
+        if not isinstance(got, dict):
+            die(f"import_primitive_params({prim.name}) does not return a dict")
+        if got == marks:
+            continue
+        back = {id(v): k for k, v in marks.items()}
+        row = []
+        for fld, v in got.items():
+            if id(v) not in back:
+                die(f"import_primitive_params({prim.name}): cannot tell which name {fld!r} = {v!r} was read from")
+            row.append((fld, back[id(v)]))
+        special[prim.name] = (prim, row)
+    if len(special) != 1:
+        die(f"import_primitive_params: expected exactly one special-cased primitive, found {sorted(special)}")
+    pulse_prim, pulse_imp = list(special.values())[0]
+    if not isinstance(pulse_prim, hp.Primitive) or pulse_prim.Params is not pulse_params:
+        die("pulse renaming: the exporter's parameter class is not the parameter class of the importer's primitive")
+    try:
+        empty = fn(pulse_prim, {})
+        if not (isinstance(empty, dict) and [k for k in empty] == [a for a, _ in pulse_imp] and all(v is None for v in empty.values())):
+            die(f"import_primitive_params({pulse_prim.name}, {{}}) = {empty!r}: neither refused nor all None")
+        total = [True] * len(pulse_imp)
+    except KeyError:
+        total = [False] * len(pulse_imp)
+
+    def _imp_source():
+        call = _ret_dict_call(find_func(im, "import_primitive_params"), "import_primitive_params")
+        out, tot = [], []
+        for kw in call.keywords:
+            v = kw.value
+            if isinstance(v, ast.Subscript) and isinstance(v.value, ast.Name) and isinstance(v.slice, ast.Constant):
+                out.append((kw.arg, v.slice.value)); tot.append(False)
+            elif isinstance(v, ast.Call) and isinstance(v.func, ast.Attribute) and v.func.attr == "get" and isinstance(v.func.value, ast.Name) \
+                    and len(v.args) in (1, 2) and isinstance(v.args[0], ast.Constant) and (len(v.args) == 1 or (isinstance(v.args[1], ast.Constant) and v.args[1].value is None)):
+                out.append((kw.arg, v.args[0].value)); tot.append(True)
+            else:
+                die("shape")
+        return out, tot
+    sf = soft(_imp_source)
+    if sf is not None and (sf[0] != pulse_imp or all(sf[1]) != all(total)):
+        die(f"pulse renaming (import): ast {sf} vs live {pulse_imp}, total={all(total)}")
+
+    # ---- port directions: export_port_dir on a port of every PortDir, import_port_dir on every vlsir Direction
     portdirs = [m.name for m in h.PortDir]
     directions = [n for n, _ in vckt.Port.Direction.items()]
-    for a, b in dir_exp:
-        if a not in portdirs or b not in directions:
-            die(f"export_port_dir: unknown name in {(a, b)}")
-    for a, b in dir_imp:
-        if a not in directions or b not in portdirs:
-            die(f"import_port_dir: unknown name in {(a, b)}")
+    dir_b = []
+    for m in h.PortDir:
+        try:
+            dir_b.append((m.name, vckt.Port.Direction.Name(EX.export_port_dir(h.Signal(name="p", direction=m)))))
+        except Exception:
+            pass
+    dir_exp = _enum_map("export_port_dir", dir_b, ex, "PortDir", "Direction")
+    dir_b = []
+    for n, v in vckt.Port.Direction.items():
+        try:
+            got = IM.import_port_dir(vckt.Port(direction=v, signal="p"))
+        except Exception:
+            continue
+        if not isinstance(got, h.PortDir):
+            die(f"import_port_dir({n}) returns {got!r}")
+        dir_b.append((n, got.name))
+    dir_imp = _enum_map("import_port_dir", dir_b, im, "Direction", "PortDir")
 
     # ---- spice types (vlsirtools.SpiceType.to_schema / from_schema, as used by export_external_module / the importer)
     st = ast.parse(textwrap.dedent(inspect.getsource(SpiceType)))
-    spice_exp = _if_chain(find_func(st, "to_schema"), "SpiceType.to_schema", "SpiceType.", "SchemaSpiceType.")
-    spice_imp = _if_chain(find_func(st, "from_schema"), "SpiceType.from_schema", "SchemaSpiceType.", "SpiceType.")
+    sp_b = []
     for m in SpiceType:
-        if vckt.SpiceType.Name(m.to_schema()) != dict(spice_exp).get(m.name):
-            die(f"SpiceType.to_schema: ast vs live for {m.name}")
+        try:
+            sp_b.append((m.name, vckt.SpiceType.Name(m.to_schema())))
+        except Exception:
+            pass
+    spice_exp = _enum_map("SpiceType.to_schema", sp_b, st, "SpiceType", "SchemaSpiceType")
+    sp_b = []
+    for n, v in vckt.SpiceType.items():
+        try:
+            sp_b.append((n, SpiceType.from_schema(v).name))
+        except Exception:
+            pass
+    spice_imp = _enum_map("SpiceType.from_schema", sp_b, st, "SchemaSpiceType", "SpiceType")
     spicetypes = [m.name for m in SpiceType]
     schema_spicetypes = [n for n, _ in vckt.SpiceType.items()]
     ext_default = h.ExternalModule.__dataclass_fields__["spicetype"].default
     if not isinstance(ext_default, SpiceType):
         die("ExternalModule.spicetype default is not a SpiceType")
-    # does export_external_module write it / import_external_module read it?
-    f = find_func(ex, "export_external_module", cls=None)
-    exp_writes = "spicetype=emod.spicetype.to_schema()" in ast.unparse(f)
-    f = find_func(im, "import_external_module")
-    imp_reads = False
-    for n in ast.walk(f):
-        if isinstance(n, ast.Call) and getattr(n.func, "id", None) == "ExternalModule":
-            for kw in n.keywords:
-                if kw.arg == "spicetype":
-                    if ast.unparse(kw.value) != "SpiceType.from_schema(pmod.spicetype)":
-                        die(f"import_external_module: unexpected spicetype expression {ast.unparse(kw.value)}")
-                    imp_reads = True
+    # does the exporter write it / the importer read it?  BEHAVIOUR: an ExternalModule of every spice type through to_proto,
+    # a declared external module of every schema spice type through from_proto
+    wrote = set()
+    for m in SpiceType:
+        if m.to_schema() == vckt.ExternalModule().spicetype:
+            continue                      # the value an un-set field has anyway says nothing
+        top = h.Module(name="TrxSpice")
+        top.add(h.ExternalModule(name="E", port_list=[], spicetype=m)()(), name="i")
+        pes = list(h.to_proto(top).ext_modules)
+        if len(pes) != 1:
+            die("to_proto: one ExternalModule is not exported as one declaration")
+        wrote.add(pes[0].spicetype == m.to_schema())
+    if len(wrote) != 1:
+        # written for some types only: neither of the two shapes the model has
+        die("export_external_module writes the spice type of some ExternalModules only")
+    exp_writes = wrote == {True}
+    # a tree whose importer ignores the field gives every module the default: `got is ext_default` for all -> read == {False}
+    # for every non-default type; the default type itself says nothing either way
+    read = set()
+    for n, v in vckt.SpiceType.items():
+        if SpiceType.from_schema(v) is ext_default:
+            continue
+        qn = vlsir.utils.QualifiedName(domain="trx.ext", name="E")
+        pkg = vckt.Package(domain="trx", ext_modules=[vckt.ExternalModule(name=qn, spicetype=v)],
+                           modules=[vckt.Module(name="M", instances=[vckt.Instance(name="i", module=vlsir.utils.Reference(external=qn))])])
+        read.add(h.from_proto(pkg).M.instances["i"].of.module.spicetype is SpiceType.from_schema(v))
+    if len(read) != 1:
+        die("import_external_module reads the spice type of some external modules only (or there is one spice type)")
+    imp_reads = read == {True}
 
-    # ---- shape of import_instance: which conversions are applied to primitive parameters
-    f = find_func(im, "import_instance")
-    calls = [n.func.id for n in ast.walk(f) if isinstance(n, ast.Call) and isinstance(n.func, ast.Name)]
-    scal = calls.count("import_scalar_literals")
-    unset = calls.count("import_unset_params")
-    if scal not in (0, 2) or unset not in (0, 2):
+    # ---- which conversions import_instance applies to primitive parameters.  BEHAVIOUR, through from_proto: a number-like
+    #      literal under a Scalar field of a vlsir.primitives element and of an hdl21.primitives element stays a Literal
+    #      (import_scalar_literals); an un-set optional parameter whose default is not None comes back as None
+    #      (import_unset_params; observable only where such a field exists - the source is consulted for the other branch).
+    from hdl21.literal import Literal as _Lit
+
+    def _imported_params(domain, name, params):
+        qn = vlsir.utils.QualifiedName(domain=domain, name=name)
+        pinst = vckt.Instance(name="i", module=vlsir.utils.Reference(external=qn),
+                              parameters=[vlsir.Param(name=k, value=vlsir.ParamValue(literal=v)) for k, v in params.items()])
+        return h.from_proto(vckt.Package(domain="trx", modules=[vckt.Module(name="M", instances=[pinst])])).M.instances["i"].of.params
+
+    Scalar = h.Scalar
+    imp_names = dict((v, k) for k, v in prim_import_reading())          # Hdl21 primitive -> vlsir element
+    lit_seen, unset_seen = {}, {}
+    for prim in registered_primitives():
+        dom, nm = ("vlsir.primitives", imp_names.get(prim.name)) if prim.primtype.name == "IDEAL" else ("hdl21.primitives", prim.name)
+        if nm is None or prim is pulse_prim:
+            continue
+        flds = dc_fields(prim.Params)
+        req = {fl.name: "1e3" for fl in flds if fl.default is MISSING and fl.default_factory is MISSING}
+        if any(fl.type not in (Scalar, typing.Optional[Scalar]) for fl in flds if fl.name in req):
+            continue
+        sc = [fl.name for fl in flds if fl.type in (Scalar, typing.Optional[Scalar])]
+        if sc and dom not in lit_seen:
+            got = _imported_params(dom, nm, {**req, sc[0]: "1e3"})
+            lit_seen[dom] = isinstance(getattr(got, sc[0]), _Lit)
+        opt = [fl.name for fl in flds if type(None) in typing.get_args(fl.type) and fl.default is not None and fl.default is not MISSING]
+        if opt and dom not in unset_seen:
+            got = _imported_params(dom, nm, req)
+            unset_seen[dom] = getattr(got, opt[0]) is None
+    if set(lit_seen) != {"vlsir.primitives", "hdl21.primitives"}:
+        die("import_instance: no Scalar parameter to probe in one of the two primitive domains")
+    if len(set(lit_seen.values())) != 1 or len(set(unset_seen.values())) > 1:
         die("import_instance: a primitive-parameter conversion is applied in one primitive branch only")
+    scal = 2 if lit_seen["vlsir.primitives"] else 0
+    if unset_seen:
+        unset = 2 if list(unset_seen.values())[0] else 0
+    else:
+        f = find_func(im, "import_instance")
+        unset = [n.func.id for n in ast.walk(f) if isinstance(n, ast.Call) and isinstance(n.func, ast.Name)].count("import_unset_params")
+        if unset not in (0, 2):
+            die("import_instance: import_unset_params is applied in one primitive branch only")
 
     # ---- the state the importer keeps between instances: attributes of `self` assigned anywhere in ProtoImporter, and
     #      anything in importing.py that could remember an earlier call (decorators, module-level containers)
@@ -172,7 +299,13 @@ def _run():
     for st_ in im.body:
         if isinstance(st_, (ast.Assign, ast.AnnAssign)) and st_.value is not None and \
                 isinstance(st_.value, (ast.Dict, ast.List, ast.Set, ast.Call, ast.DictComp, ast.ListComp, ast.SetComp)):
-            memo.append("global:" + ast.unparse(st_.targets[0] if isinstance(st_, ast.Assign) else st_.target))
+            tg = st_.targets[0] if isinstance(st_, ast.Assign) else st_.target
+            if isinstance(tg, ast.Name) and isinstance(st_.value, (ast.Dict, ast.List, ast.Set)) and _read_only(im, tg.id, st_):
+                continue      # a constant table (a literal that is only ever looked up) remembers nothing
+            if isinstance(st_.value, ast.Call) and isinstance(st_.value.func, ast.Name) and st_.value.func.id in ("frozenset", "tuple") \
+                    and not st_.value.keywords and not any(isinstance(q, (ast.Call, ast.Lambda)) for a in st_.value.args for q in ast.walk(a)):
+                continue      # an immutable collection cannot remember a call either
+            memo.append("global:" + ast.unparse(tg))
     for n in ast.walk(im):
         if isinstance(n, ast.FunctionDef):
             for dflt in n.args.defaults + [d for d in n.args.kw_defaults if d is not None]:
